@@ -2,6 +2,7 @@
 (* JSON shapes (recursive finite set) and documents for the wsjson conformance driver.       *)
 EXTENDS Integers, Sequences, FiniteSets, TLC, Json, IOUtils, SequencesExt
 Leaves == {"null", "true", "num", "bignum", "str", "unicode", "longstr"}
+Huge == [k |-> "leaf", v |-> "hugestr"]     \* larger than 1 MiB: beyond every size at which buffers are normally retained
 Depth == IF "DEPTH" \in DOMAIN IOEnv THEN atoi(IOEnv.DEPTH) ELSE 2
 RECURSIVE Shapes(_)
 Shapes(d) == IF d = 0 THEN {[k |-> "leaf", v |-> l] : l \in Leaves}
@@ -13,6 +14,7 @@ Shapes(d) == IF d = 0 THEN {[k |-> "leaf", v |-> l] : l \in Leaves}
 Targets == {"any", "raw", "bytes", "int", "string", "struct", "map"}
 Faults == {"none", "truncate", "garbage", "twovalues", "emptymsg", "binaryframe"}
 Rows == SetToSeq({ [shape |-> s, target |-> t, fault |-> f] : s \in Shapes(Depth), t \in Targets, f \in Faults })
+        \o SetToSeq({ [shape |-> Huge, target |-> t, fault |-> "none"] : t \in {"any", "string", "raw"} })
 ASSUME PrintT(<<"rows", Len(Rows)>>)
 ASSUME ndJsonSerialize(IOEnv.OUT, Rows)
 VARIABLE x
